@@ -942,6 +942,13 @@ fn parse_struct_literal_fields(
         if token.text == "," {
             tokens.pop();
         }
+
+        if tokens.idx == start_idx {
+            // At the end of the file `parse_symbol` hands back the
+            // previous token, so this iteration consumed nothing and
+            // the next one would do exactly the same.
+            break;
+        }
     }
 
     fields
@@ -1544,6 +1551,7 @@ fn parse_enum_body(
             break;
         }
 
+        let start_idx = tokens.idx;
         let mut variant = parse_variant(tokens, id_gen, diagnostics);
 
         if let Some(token) = tokens.peek() {
@@ -1551,6 +1559,12 @@ fn parse_enum_body(
                 variant.comma = Some(token.position);
                 variants.push(variant);
                 tokens.pop();
+
+                if tokens.idx <= start_idx {
+                    // No forward progress (we're at the end of the
+                    // file), don't loop forever.
+                    break;
+                }
             } else if token.text == "}" {
                 variants.push(variant);
                 break;
@@ -1843,9 +1857,22 @@ fn parse_type_arguments(
 
     let mut args = vec![];
     let close_pos = loop {
-        if let Some(token) = tokens.peek() {
-            if token.text == ">" {
-                break token.position;
+        match tokens.peek() {
+            Some(token) => {
+                if token.text == ">" {
+                    break token.position;
+                }
+            }
+            None => {
+                // At the end of the file `parse_symbol` hands back
+                // the previous token (the `<` or `,`) without
+                // consuming anything, so parsing another argument
+                // would never finish. `require_token` below reports
+                // the missing `>`.
+                break match tokens.prev() {
+                    Some(prev_token) => prev_token.position,
+                    None => Position::todo(&tokens.vfs_path),
+                };
             }
         }
         let arg = parse_type_hint(tokens, id_gen, diagnostics);
@@ -1911,6 +1938,7 @@ fn parse_type_params(
             break;
         }
 
+        let start_idx = tokens.idx;
         let arg = parse_type_symbol(tokens, id_gen, diagnostics);
         let arg_pos = arg.position.clone();
         params.push(arg);
@@ -1918,6 +1946,12 @@ fn parse_type_params(
         if let Some(token) = tokens.peek() {
             if token.text == "," {
                 tokens.pop();
+
+                if tokens.idx <= start_idx {
+                    // No forward progress (we're at the end of the
+                    // file), don't loop forever.
+                    break;
+                }
             } else if token.text == ">" {
                 break;
             } else {
@@ -2008,10 +2042,12 @@ fn parse_tuple_type_hint(
             tokens.pop();
         }
 
-        assert!(
-            tokens.idx > start_idx,
-            "The parser should always make forward progress."
-        );
+        if tokens.idx <= start_idx {
+            // At the end of the file `parse_symbol` hands back the
+            // previous token without consuming anything, so we made
+            // no forward progress. Stop rather than looping.
+            break;
+        }
     }
 
     let close_paren = require_token(tokens, diagnostics, ")");
@@ -2196,10 +2232,12 @@ fn parse_parameters(
             break;
         }
 
-        assert!(
-            tokens.idx > start_idx,
-            "The parser should always make forward progress."
-        );
+        if tokens.idx <= start_idx {
+            // At the end of the file `parse_symbol` hands back the
+            // previous token without consuming anything, so we made
+            // no forward progress. Stop rather than looping.
+            break;
+        }
     }
 
     let close_paren = require_token(tokens, diagnostics, ")");
@@ -2829,10 +2867,13 @@ fn parse_let_destination(
                 require_token(tokens, diagnostics, ",");
             }
 
-            assert!(
-                tokens.idx > start_idx,
-                "The parser should always make forward progress."
-            );
+            if tokens.idx <= start_idx {
+                // At the end of the file `parse_symbol` hands back
+                // the previous token without consuming anything, so
+                // we made no forward progress. Stop rather than
+                // looping.
+                break;
+            }
         }
 
         let mut seen: FxHashMap<&String, &Position> = FxHashMap::default();
